@@ -235,6 +235,81 @@ func runTTLCases(gateways map[string]*gateway, seed int64, emit func(redisDesc))
 	}
 	n := 0
 	var latest int64
+
+	// Sub-second deadlines. The store keeps expiry in whole seconds (floor); the
+	// gateway bumps a PX deadline that would fall into the current second to the
+	// next one, so SET .. PX n with n < 1000 must be readable for the rest of the
+	// second it was issued in and gone from the next second on, wherever in the
+	// second it was issued; PXAT is stored as floor(ms/1000) without a bump. Each
+	// batch is issued at a chosen position inside a second (early: 40-90 ms,
+	// late: 600-650 ms) and is discarded if it did not finish within that second,
+	// so every recorded clock value is the second the server saw.
+	for _, pos := range []struct {
+		name   string
+		lo, hi int
+	}{{"early", 40, 90}, {"late", 600, 650}} {
+		for attempt := 0; attempt < 5; attempt++ {
+			for {
+				ms := int(time.Now().UnixMilli() % 1000)
+				if ms >= pos.lo && ms <= pos.hi {
+					break
+				}
+				time.Sleep(5 * time.Millisecond)
+			}
+			sec := time.Now().Unix()
+			var batch []*open
+			var berr error
+			for _, backend := range []string{"embedded", "raft"} {
+				for _, px := range []int{1, 100, 300, 500, 900, 999} {
+					for _, variant := range []string{"plain", "nx", "xx", "nx_existing", "pxat"} {
+						if variant != "plain" && px != 100 && px != 500 {
+							continue
+						}
+						n++
+						key := fmt.Sprintf("u%d.%d:k", seed, n)
+						cn, err := gateways[backend].dial()
+						if err != nil {
+							return err
+						}
+						o := &open{cn: cn, key: key, backend: backend}
+						batch = append(batch, o)
+						var seq [][]string
+						switch variant {
+						case "plain":
+							seq = [][]string{{"SET", key, "41", "PX", strconv.Itoa(px)}}
+						case "nx":
+							seq = [][]string{{"SET", key, "41", "NX", "PX", strconv.Itoa(px)}}
+						case "xx":
+							seq = [][]string{{"SET", key, "7"}, {"SET", key, "41", "PX", strconv.Itoa(px), "XX"}}
+						case "nx_existing":
+							seq = [][]string{{"SET", key, "7"}, {"SET", key, "41", "PX", strconv.Itoa(px), "NX"}}
+						default:
+							seq = [][]string{{"SET", key, "41", "PXAT", strconv.FormatInt(time.Now().UnixMilli()+int64(px), 10)}}
+						}
+						seq = append(seq, []string{"GET", key}, []string{"EXISTS", key}, []string{"INCR", key}, []string{"GET", key})
+						if err := runRedisOn(cn, &o.d, seq); err != nil {
+							berr = err
+						}
+					}
+				}
+			}
+			if berr != nil {
+				return berr
+			}
+			if time.Now().Unix() == sec {
+				opens = append(opens, batch...)
+				if d := sec + 3; d > latest {
+					latest = d
+				}
+				break
+			}
+			// the batch crossed a second boundary: drop it and try again
+			for _, o := range batch {
+				o.cn.close()
+			}
+		}
+	}
+
 	for _, backend := range []string{"embedded", "raft"} {
 		for oi, opt := range []string{"EX", "PX", "EXAT", "PXAT"} {
 			for mi, mid := range mids {
@@ -351,7 +426,7 @@ func redisCaseTerm(d redisDesc) string {
 
 func runRedis(c *corr.Ctx) error {
 	c.Meta("run_module", "RunRedis")
-	c.Meta("rule", "two deployments of the same binary, alternating: embedded backend (real DB) and raft backend (backend_raft.go over the hook's in-process MVCC fake of the raft client, sequential clients only); real-clock TTL cases on both backends (SET k 41 EX/PX/EXAT/PXAT three seconds ahead; INCR/DECR/INCRBY/DECRBY, SET/MSET/SET XX/DEL+INCR on it; GET/EXISTS before the deadline; one common wait; GET/EXISTS/MGET/INCR/GET after it: a TTL kept by the INCR family makes the key absent, a TTL discarded by SET/MSET leaves it); 100 directed sequences per run (SET with past/future expiry, then MSET/SET/SET XX/SET NX/INCR/DEL/INCRBY on that key, then GET/EXISTS/INCR/DEL/MGET); random single-connection command sequences (5-40 commands + final MGET/EXISTS/GET of every key) over 4 keys with a per-case prefix; 20 values (empty, white space, int64 limits, non-integers, +5, 007, CRLF); SET with NX/XX/EX/PX/EXAT/PXAT/KEEPTTL/bogus options in random order and case, expiry arguments in the far past/future, zero, negative, non-integer, overflowing; DEL/EXISTS/MGET/MSET with repeated keys and odd arity; INCR/DECR/INCRBY/DECRBY with 15 deltas incl. -2^63; PING/ECHO with 0-2 arguments; unknown commands; QUIT. Raw reply bytes of every command compared. non-trivial = at least one write command succeeded; distinct by Gallina term")
+	c.Meta("rule", "two deployments of the same binary, alternating: embedded backend (real DB) and raft backend (backend_raft.go over the hook's in-process MVCC fake of the raft client, sequential clients only); sub-second deadlines on both backends (SET k 41 PX 1..999, with NX / XX / NX on an existing key, and PXAT now+100/500 ms, issued 40-90 ms and 600-650 ms into a second and only kept if the whole batch stayed inside that second; GET/EXISTS/INCR immediately, then after the common wait); real-clock TTL cases on both backends (SET k 41 EX/PX/EXAT/PXAT three seconds ahead; INCR/DECR/INCRBY/DECRBY, SET/MSET/SET XX/DEL+INCR on it; GET/EXISTS before the deadline; one common wait; GET/EXISTS/MGET/INCR/GET after it: a TTL kept by the INCR family makes the key absent, a TTL discarded by SET/MSET leaves it); 100 directed sequences per run (SET with past/future expiry, then MSET/SET/SET XX/SET NX/INCR/DEL/INCRBY on that key, then GET/EXISTS/INCR/DEL/MGET); random single-connection command sequences (5-40 commands + final MGET/EXISTS/GET of every key) over 4 keys with a per-case prefix; 20 values (empty, white space, int64 limits, non-integers, +5, 007, CRLF); SET with NX/XX/EX/PX/EXAT/PXAT/KEEPTTL/bogus options in random order and case, expiry arguments in the far past/future, zero, negative, non-integer, overflowing; DEL/EXISTS/MGET/MSET with repeated keys and odd arity; INCR/DECR/INCRBY/DECRBY with 15 deltas incl. -2^63; PING/ECHO with 0-2 arguments; unknown commands; QUIT. Raw reply bytes of every command compared. non-trivial = at least one write command succeeded; distinct by Gallina term")
 	bin, err := buildGateway(c.Out)
 	if err != nil {
 		return err
